@@ -487,15 +487,16 @@ def main():
         r = json.load(open(a.replay))["replay"]
         if "pi" not in r:  # a case of the concrete stages: run them again for this library only
             case = json.load(open(a.replay))["case"]
-            if case.startswith("walk:"):
-                cols = [walk_stage((r["lib"], "thorough"))]
-            else:
-                cols = [sequence_task((r["lib"], "thorough")),
-                        _first_use_compare(_fresh_pool_map(first_use_task, [(r["lib"], pi, pi % 2) for pi in range(math.factorial(NFILES[r["lib"]]))], a.jobs))]
-            hits = [(c, w) for col in cols for c, w, _ in col.violations if c == case]
-            for c, w in hits[:3]:
-                print("REPRODUCED", c, w)
-            return 1 if hits else 0
+            stages = [lambda: walk_stage((r["lib"], "thorough"))] if case.startswith("walk:") else [
+                lambda: sequence_task((r["lib"], "thorough")),
+                lambda: _first_use_compare(_fresh_pool_map(first_use_task, [(r["lib"], pi, pi % 2) for pi in range(math.factorial(NFILES[r["lib"]]))], a.jobs))]
+            for stage in stages:
+                hits = [(c, w) for c, w, _ in stage().violations if c == case]
+                for c, w in hits[:3]:
+                    print("REPRODUCED", c, w)
+                if hits:
+                    return 1
+            return 0
         func = r.get("func", "order")
         res, p = _concrete_replay(func, {"lib": r["lib"], "pi": r["pi"], "style": r["style"]}, r.get("literals", [3, 4, 5, 6]))
         print(p.stdout[-300:], p.stderr[-300:])
